@@ -771,6 +771,54 @@ example : Infretis.WF.maxOf [-1, 0, 1, 2, 1, 0, -1] = some 2 ∧
     Infretis.WF.cvVector [-1, 0, 1, 2, 1, 0, -1] [0, 2, 4] [false, false] none = .ok [1, 1, 0] := by
   decide
 
+
+/-! ### what the defaults block may touch; the workers boundary -/
+
+/-- **The defaults block only fills in defaults.** Interfaces, workers, shooting moves, cap and the
+    engine tables come out of `normalise` unchanged; a key that is present keeps its value (seed,
+    accept_all, quantis, a λ₋₁ that is `false` or a number, a non-empty ensemble_engines). -/
+theorem normalise_touches_only_defaults (c : Cfg) :
+    (normalise c).interfaces = c.interfaces ∧ (normalise c).workers = c.workers ∧
+    (normalise c).moves = c.moves ∧ (normalise c).cap = c.cap ∧ (normalise c).engines = c.engines ∧
+    (∀ s, c.seed = some s → (normalise c).seed = some s) ∧
+    (∀ a, c.acceptAll = some a → (normalise c).acceptAll = some a) ∧
+    (∀ q, c.quantis = some q → (normalise c).quantis = some q) ∧
+    (c.lm1 ≠ .absent → (normalise c).lm1 = c.lm1) ∧
+    (∀ e ee, c.ensEngines = some (e :: ee) → (normalise c).ensEngines = some (e :: ee)) := by
+  refine ⟨rfl, rfl, rfl, rfl, rfl, ?_, ?_, ?_, ?_, ?_⟩
+  · intro s h; simp [normalise, h]
+  · intro a h; simp [normalise, h]
+  · intro q h; cases q <;> simp [normalise, quantisOn, h]
+  · intro h; cases hl : c.lm1 <;> simp_all [normalise]
+  · intro e ee h; simp [normalise, hasEnsEngs, h]
+
+example : (normalise raw).interfaces = raw.interfaces ∧ raw.seed = none ∧ (normalise raw).seed = some 0 := by
+  decide
+
+/-- **Workers boundary.** For an accepted configuration with `n` interfaces, `workers = n − 1` is
+    accepted and `workers = n` is rejected with a TOMLConfigError (everything else unchanged). -/
+theorem workers_boundary (c : Cfg) (h : check c = .ok ()) :
+    check { c with workers := (c.interfaces.length : Int) - 1 } = .ok () ∧
+    check { c with workers := (c.interfaces.length : Int) } = .error .config := by
+  have hc := (check_ok_iff c).1 h
+  constructor
+  · rw [check_ok_iff]
+    exact {
+      pre := { two := hc.pre.two, lm1 := hc.pre.lm1, noQuantisLm1 := hc.pre.noQuantisLm1,
+               workers := Int.le_refl _, sorted := hc.pre.sorted, moves := hc.pre.moves,
+               capInside := hc.pre.capInside, capRoom := hc.pre.capRoom, cover := hc.pre.cover,
+               engines := hc.pre.engines }
+      gromacs := hc.gromacs }
+  · apply invalid_rejected
+    · intro hv
+      have := hv.workers
+      simp only at this
+      omega
+    · exact hc.pre.ensEngines_ne_none
+
+example : check { good with workers := 2 } = .ok () ∧ check { good with workers := 3 } = .error .config := by
+  decide
+
 /-! ### the executable form of `Valid` used by the tie -/
 
 theorem strictIncr_iff : ∀ l : List Int, strictIncr l = true ↔ l.Pairwise (· < ·) := by
